@@ -194,6 +194,8 @@ type Cluster struct {
 	Cut      map[int]bool
 	Adv      *Adversary
 	KeepAll  bool // keep full trace (otherwise only the tail is kept on long runs)
+	// TxSchedule lists virtual instants (ascending) at which a new transaction appears.
+	TxSchedule []int64
 
 	nextUID   int
 	nextEnv   int
@@ -219,6 +221,7 @@ type Node struct {
 	Restarts int
 
 	PendingReset bool
+	ResetAt      int64      // virtual instant at which the application will call Reset (0: unset)
 	Requested    map[H]bool // asked through RequestTx and not yet supplied
 	Subscribed   bool
 	depth        int
@@ -745,6 +748,7 @@ func (n *Node) Start() {
 // Reset calls Reset with the tip timestamp (documented application loop).
 func (n *Node) Reset() {
 	n.PendingReset = false
+	n.ResetAt = 0
 	n.call("Reset", nil, func() { n.D.Reset(n.TipTs()) })
 }
 
